@@ -843,7 +843,7 @@ class IrGenerator:
             # fallback to nested if statements
             #
 
-            if inp.returns():
+            if inp.returns() and inp._default is not None:
                 assert inp.returns_always()
 
             if inp._default is not None:
